@@ -382,7 +382,7 @@ def finish(prop, a, dsl, reports, t0, seed, extra):
     if extra:
         ev['coverage']['thorough'] = extra
     os.makedirs(os.path.join(HERE, 'evidence'), exist_ok=True)
-    if not a.only:
+    if not a.only and not os.environ.get('PYVC_NO_EVIDENCE'):      # (probes against scratch copies of the repository set PYVC_NO_EVIDENCE)
         with open(os.path.join(HERE, 'evidence', prop + '.json'), 'w') as f:
             json.dump(ev, f, indent=1, default=str)
     if a.update_ledger and not violations and not undecided and not crashed:
